@@ -85,7 +85,7 @@ def schema_c10(rng, idx):
     return {"name": nm, "entities": ents}
 
 
-def schema_c11(rng, idx, ninv=None):
+def schema_c11(rng, idx, ninv=None, complex_ref=False):
     """targets with 1-3 inverse attributes (own and inherited, aggregate and single), several referrer entities,
     a referrer subtype, referrers that also mention the target through another attribute"""
     nm = f"iv{idx}"
@@ -97,7 +97,14 @@ def schema_c11(rng, idx, ninv=None):
             {"name": "rsub", "sup": "rel", "attrs": [("z", "int", None)]},
             {"name": "qel", "attrs": [("q1", "optref", "tg"), ("qs", "listref", "tg"), ("w", "optref", "tsub")]},
             ]
+    if complex_ref:
+        # referrers may be complex instances (REL ANDOR family): the known `complex-referrer` class
+        ent({"entities": ents}, "rel")["andor"] = ["ra", "rb"]
+        ents += [{"name": "ra", "sup": "rel", "attrs": [("za", "int", None)]},
+                 {"name": "rb", "sup": "rel", "attrs": [("zb", "optstr", None)]}]
     cands = [("rel", "one"), ("rel", "many"), ("qel", "q1"), ("qel", "qs"), ("rel", "oth"), ("rsub", "one")]
+    if complex_ref:
+        cands = [("rel", "one"), ("rel", "many"), ("rel", "oth")]
     rng.shuffle(cands)
     used = cands[:ninv]
     for i, (over, attr) in enumerate(used):
@@ -226,8 +233,9 @@ def attr_refs(s, x, owner_chain_entity, attr):
     return out
 
 
-def inverse_truth(s, pop, x):
-    """{(invname, owner): sorted referrer ids} for every inverse attribute x has (own or inherited)"""
+def inverse_truth(s, pop, x, skip_complex=False):
+    """{(invname, owner): sorted referrer ids} for every inverse attribute x has (own or inherited);
+    skip_complex: leave complex (externally mapped) referrers out - what the known `complex-referrer` defect yields"""
     res = {}
     types = set()
     for (p, _) in x["parts"]:
@@ -236,6 +244,8 @@ def inverse_truth(s, pop, x):
         for (n, aggr, over, attr) in ent(s, t).get("inverses", []):
             refs = []
             for y in pop:
+                if skip_complex and len(y["parts"]) > 1:
+                    continue
                 if any(is_a(s, p, over) for (p, _) in y["parts"]) and x["id"] in attr_refs(s, y, over, attr):
                     refs.append(y["id"])
             res[(n, t)] = sorted(refs)
@@ -286,31 +296,60 @@ def render_params(rng, vals, lay, cmt_at):
     return "(" + ",".join(items) + ")"
 
 
-def render_instance(rng, x, lay=True, cmt=True):
+RISKY = ["comment-before-semicolon", "comment-between-id-and-eq", "comment-before-endsec", "whitespace-after-keyword",
+         "comment-between-keyword-and-paren", "two-comments-one-instance"]
+
+
+def render_instance(rng, x, lay=True, cmt=True, risky=None):
     """one instance in a layout inside the class both readers are specified for (see notes/C10.md):
     at most ONE comment per instance - before `#`, after `=`, or after a `(` / `,` of a simple instance -,
-    white space around `=`, blanks (not other white space) directly after the keyword, white space before `;`."""
+    white space around `=`, blanks (not other white space) directly after the keyword, white space before `;`.
+    risky = one of RISKY: additionally the named conforming shape on which the two readers are known to have differed."""
     where = None
-    if cmt and rng.random() < 0.4:
+    simple = len(x["parts"]) == 1
+    if risky == "two-comments-one-instance":
+        where = "lead"
+    elif risky is None and cmt and rng.random() < 0.4:
         where = rng.choice(["lead", "eq", "param"])
     out = ws(rng, lay)
     if where == "lead":
         out += comment(rng) + ws(rng, lay)
-    out += f"#{x['id']}" + ws(rng, lay) + "=" + ws(rng, lay)
+    out += f"#{x['id']}" + ws(rng, lay)
+    if risky == "comment-between-id-and-eq":
+        out += comment(rng, semi=False) + ws(rng, lay)
+    out += "=" + ws(rng, lay)
     if where == "eq":
         out += comment(rng) + " " + ws(rng, lay)
-    if len(x["parts"]) > 1:
+    if not simple:
         out += "(" + "".join(p.upper() + render_params(rng, vs, lay, None) for (p, vs) in x["parts"]) + ")"
     else:
         p, vs = x["parts"][0]
         at = rng.randrange(len(vs)) if (where == "param" and vs) else None
-        out += p.upper() + (rng.choice(["", "", " ", "  "]) if lay else "") + render_params(rng, vs, lay, at)
+        if risky == "two-comments-one-instance" and vs:
+            at = rng.randrange(len(vs))
+        out += p.upper()
+        if risky == "whitespace-after-keyword":
+            out += rng.choice(["\t", "\n", "\r\n", "\t "])
+        elif risky == "comment-between-keyword-and-paren":
+            out += " " + comment(rng, semi=False) + " "
+        else:
+            out += (rng.choice(["", "", " ", "  "]) if lay else "")
+        out += render_params(rng, vs, lay, at)
+    if risky == "comment-before-semicolon":
+        out += ws(rng, lay) + comment(rng, semi=False)
     out += ws(rng, lay) + ";"
     return out
 
 
-def render_file(rng, s, pop, lay=True, cmt=True):
-    """returns (text, offset of the first byte after `DATA;`)"""
+def render_file(rng, s, pop, lay=True, cmt=True, risky=None):
+    """returns (text, offset of the first byte after `DATA;`); risky: see render_instance - applied to ONE instance
+    (a simple one where the shape needs it) or, for comment-before-endsec, to the end of the section"""
     head = HEADER % s["name"]
-    body = "\n" + "\n".join(render_instance(rng, x, lay, cmt) for x in pop) + "\n"
-    return head + body + ws(rng, lay) + FOOTER, len(head)
+    victim = None
+    if risky and risky != "comment-before-endsec" and pop:
+        simple = [k for k, x in enumerate(pop) if len(x["parts"]) == 1 and x["parts"][0][1]]
+        victim = rng.choice(simple) if simple else None
+    body = "\n" + "\n".join(render_instance(rng, x, lay, cmt, risky if k == victim else None)
+                              for k, x in enumerate(pop)) + "\n"
+    tail = (comment(rng, semi=False) + "\n") if risky == "comment-before-endsec" else ""
+    return head + body + ws(rng, lay) + tail + FOOTER, len(head)
